@@ -114,14 +114,14 @@ PROPS = {
             "BinWrite::write_cstring, BinRead::read_cstring_blockwise on an in-memory Cursor (src/io.rs)",
             "std write_string_128 / read_string_128 (BinRead::read_cstring_exact) - the 128-byte name fields of STD files, transcoder "
             "stubbed in both directions",
+            "mission write_mission_text_lines / read_mission_text_lines + ZunMissionCipher::bytes_for_line (ciphered 64-byte lines)",
         ],
         "unverified": [
             "Shift-JIS transcoding: Encoded::encode / decode / encode_fixed_size call the external crate encoding_rs (assumed correct; "
             "'unambiguously representable' in the property is a statement about that crate's tables)",
             "the order in which encode_args / decode_args call the leaves (NUL, furigana append, pad, mask) and the furigana state: "
             "inside functions neither back end can reach (C12). A change that reorders those calls is NOT detected; a change inside a leaf is",
-            "Pascal length prefix, mission.rs line cipher (wrapping add/sub of the same stream); the callers of encode_fixed_size "
-            "(std.rs 128-byte names, mission.rs 64-byte lines)",
+            "Pascal length prefix; mission.rs beyond its first text line (line numbers > 0 change only the stream's velocity)",
             "diagnostics: that 'unencodable' and 'does not fit' are reported (error paths reach the diagnostics renderer)",
         ],
         "bounds": [
